@@ -21,6 +21,7 @@ pub fn prop() -> Prop {
             Sub::tape("primitives_large", 64, 4_000, 200_000, |d, cx| run(d, cx, 4)),
             Sub::tape("polylines", 72, 50_000, 2_500_000, |d, cx| run(d, cx, 1)),
             Sub::tape("primitives_display_scale", 64, 6_000, 300_000, display_scale).with_fp(),
+            Sub::tape("huge_extent", 64, 6_000, 200_000, huge_extent).with_fp(),
             Sub::tape("thick_polylines_triangles", 40, 300_000, 15_000_000, thick_joins),
             Sub::tape("images", 400, 30_000, 1_500_000, |d, cx| run(d, cx, 2)),
             Sub::tape("text_random", 300, 100_000, 5_000_000, |d, cx| run(d, cx, 3)),
@@ -179,10 +180,27 @@ fn thick_joins(d: &mut Dec, cx: &mut Cx) -> Res {
 /// cases are dotted rectangles, whose dot positions are computed with `Real` arithmetic), judged on
 /// an extent-tracking native target (O(1) per fill); default and fixed_point builds.
 fn display_scale(d: &mut Dec, cx: &mut Cx) -> Res {
+    let maxw = if d.ratio(1, 3) { 128 } else { 12 };
+    extent_case(d, cx, 100, 1024, maxw)
+}
+
+/// Beyond display scale: styled primitives of 1025..=3000 px (all eight kinds, arcs and sectors
+/// included) with strokes up to 200 px on the extent-tracking target. The extent of everything
+/// painted (fills O(1), strokes pixel by pixel) must lie inside bounding_box(), and a transparent
+/// style must paint nothing.
+fn huge_extent(d: &mut Dec, cx: &mut Cx) -> Res {
+    let maxw = match d.u(0, 2) {
+        0 => 200,
+        1 => 40,
+        _ => 3,
+    };
+    extent_case(d, cx, 1025, 3000, maxw)
+}
+
+fn extent_case(d: &mut Dec, cx: &mut Cx, lo: u32, hi: u32, maxw: u32) -> Res {
     type C = Rgb565;
     let dotted_rect = d.ratio(1, 4);
     let kind = if dotted_rect { 0 } else { d.u(0, 7) };
-    let maxw = if d.ratio(1, 3) { 128 } else { 12 };
     let mut st = crate::gen::style::<C>(d, maxw);
     if dotted_rect || d.ratio(1, 8) {
         st.stroke_style = embedded_graphics::primitives::StrokeStyle::Dotted;
@@ -191,7 +209,7 @@ fn display_scale(d: &mut Dec, cx: &mut Cx) -> Res {
             st.stroke_width = st.stroke_width.clamp(1, 12);
         }
     }
-    let item: Item<C> = Item::Styled(crate::gen::large_shape(d, kind, 100, 1024), st);
+    let item: Item<C> = Item::Styled(crate::gen::large_shape(d, kind, lo, hi), st);
     cx.describe(|| item.desc());
     cx.class(if dotted_rect { "dotted_rectangle" } else { item.kind() });
     let k = item.kind();
